@@ -188,6 +188,34 @@ fn one_input(ctx: &mut Ctx, index: u64, bytes: &[u8], class: &str, r: &mut Rng, 
                 check(ctx, "Beatmap::from_path".into(), res);
                 let _ = std::fs::remove_file(&path);
             }
+            // ... and a path that is not a regular file: a named pipe fed by another thread (its reported size is 0
+            // and the bytes arrive in pieces)
+            if index % 64 == 0 && !bytes.is_empty() {
+                let fifo = dir.join(format!("c08-{}-{}.fifo", std::process::id(), ctx.shard));
+                let _ = std::fs::remove_file(&fifo);
+                let made = std::process::Command::new("mkfifo").arg(&fifo).status().map(|s| s.success()).unwrap_or(false);
+                if made {
+                    let data = bytes.to_vec();
+                    let wpath = fifo.clone();
+                    let writer = std::thread::spawn(move || {
+                        use std::io::Write;
+                        if let Ok(mut f) = std::fs::OpenOptions::new().write(true).open(&wpath) {
+                            for chunk in data.chunks(4096) {
+                                if f.write_all(chunk).is_err() {
+                                    break;
+                                }
+                            }
+                        }
+                    });
+                    ctx.count("from_path_on_a_named_pipe");
+                    let res = rosu_map::from_path::<Trace>(&fifo).map(|t| (t, None)).map_err(|e| format!("{e:?}"));
+                    let _ = writer.join();
+                    check(ctx, "from_path on a named pipe".into(), res);
+                    let _ = std::fs::remove_file(&fifo);
+                } else {
+                    ctx.count("named_pipe_unavailable");
+                }
+            }
         }
         for cap in 1..=16usize {
             ctx.count("bufreader_capacities_compared");
